@@ -208,6 +208,15 @@ def run(ck):
         for j, rc, se in sdead:
             failing.append(({"goroutines": j["n"]}, ("DATA RACE: " if "DATA RACE" in se else "stress process died: ") + se[-500:]))
         ck.cov["race_stress_runs"] = sum((sres.get(j["id"]) or {}).get("runs", 0) for j in stress)
+        # cold: the very first compilations of a fresh process run concurrently on the AST the leader has just cached
+        for k in range(8 if ck.quick else 30):
+            j = {"id": 0, "docs": [cl.DOCS[8], cl.DOCS[8], cl.DOCS[2]][: 2 + k % 2], "n": 8, "reps": 3, "cache": True, "cold": True}
+            rc, r, se = vlib.harness(hbr, "conc", [j], timeout=300)
+            ck.count("race-cold:%d" % k, True, tags=["race-cold-start"])
+            if "DATA RACE" in se or not r:
+                failing.append(({"goroutines": 8, "docs": j["docs"], "cold_start": True}, ("DATA RACE: " if "DATA RACE" in se else "stress process died: ") + se[:1500]))
+            elif r[0]["contaminated"]:
+                failing.append(({"goroutines": 8, "docs": j["docs"], "cold_start": True, "first": r[0]["first"]}, "cold start: %d results differ from the solo result" % r[0]["contaminated"]))
 
     ck.cov["rule"] = ("controlled schedules of N in {2..8} goroutines compiling equal / different / unparsable templates with the cache on, "
                       "initial cache empty / fresh / expired, optional expiry in mid-schedule; scheduling: all pick lists of length %d for two "
